@@ -40,19 +40,25 @@ type vio struct {
 	Key    string `json:"key"`
 	What   string `json:"what"`
 	Replay any    `json:"replay"`
+	Size   int    `json:"size"` // smaller = simpler case; the parent keeps the simplest per key
 }
 
 func newShardOut() *shardOut {
 	return &shardOut{Outcomes: map[string]int64{}, Counters: map[string]int64{}, Sets: map[string][]string{}}
 }
 
-func (s *shardOut) violate(key, what string, replay any) {
-	for _, v := range s.Violations {
+func (s *shardOut) violate(key, what string, replay any) { s.violateSized(key, what, replay, 0) }
+
+func (s *shardOut) violateSized(key, what string, replay any, size int) {
+	for i, v := range s.Violations {
 		if v.Key == key {
+			if size < v.Size {
+				s.Violations[i] = vio{key, what, replay, size}
+			}
 			return
 		}
 	}
-	s.Violations = append(s.Violations, vio{key, what, replay})
+	s.Violations = append(s.Violations, vio{key, what, replay, size})
 }
 
 func (s *shardOut) sample(v any) {
@@ -142,7 +148,7 @@ func fanout(run *ev.Run) *shardOut {
 			total.Counters[k] += c
 		}
 		for _, v := range so.Violations {
-			total.violate(v.Key, v.What, v.Replay)
+			total.violateSized(v.Key, v.What, v.Replay, v.Size)
 		}
 		for _, s := range so.Samples {
 			if len(total.Samples) < 6 {
